@@ -65,6 +65,7 @@ static int g_nviol;
 
 static int g_nth_fn = -1, g_nth_left = -1;  // fail the n-th call of one function
 static unsigned g_nth_fired;
+static int g_pipe_capacity;  // > 0: every pipe the library creates is shrunk to this many bytes
 static int g_dry_nextfd = 1000;
 static pid_t g_dry_pid = 400000;
 
@@ -241,6 +242,7 @@ void vs_reset(void)
   g_dry_nextfd = 1000;
   g_nth_fn = -1;
   g_nth_left = -1;
+  g_pipe_capacity = 0;
   memset(&vs_counts, 0, sizeof(vs_counts));
 }
 
@@ -276,6 +278,7 @@ void vs_reset_light(void)
 }
 
 unsigned vs_nth_fired(void) { return g_nth_fired; }
+void vs_pipe_capacity(int bytes) { g_pipe_capacity = bytes; }
 
 void vs_fail_nth(int fn, int n)
 {
@@ -890,6 +893,9 @@ int vs_pipe(int fds[2])
     ret = 0;
   } else {
     ret = pipe(fds);
+    // what a machine with scarce pipe buffers gives a process (pipe(7): once a
+    // user holds more than pipe-user-pages-soft, new pipes get a single page)
+    if (ret == 0 && g_pipe_capacity > 0) fcntl(fds[1], F_SETPIPE_SZ, g_pipe_capacity);
   }
   if (ret == 0 && g_side == VS_PARENT) {
     for (int i = 0; i < 2; i++) {
@@ -1143,8 +1149,11 @@ pid_t vs_waitpid(pid_t pid, int *status, int options)
   pid_t ret = waitpid(pid, &st, options);
   int e = errno;
   if (ret == pid) {
-    g_child[ci].live = 0;
-    g_child[ci].reaps++;
+    // a stop / continue notification (WUNTRACED, WCONTINUED) reaps nothing
+    if (WIFEXITED(st) || WIFSIGNALED(st)) {
+      g_child[ci].live = 0;
+      g_child[ci].reaps++;
+    }
     r->a2 = st;
   }
   if (status) {
